@@ -1,5 +1,6 @@
 import GraphSlam.Props.C12.Ctl
 import GraphSlam.Props.C12.State
 import GraphSlam.Props.E2E.Run
+import GraphSlam.Props.Tie.GraphPy
 
 /-! C12 — umbrella. -/
